@@ -635,12 +635,16 @@ pub fn gen_voice(t: &mut Tape, o: GenOpts) -> VoiceSpec {
     let (stage, use_log_gain) = if lsp { (t.urange(1, 4), t.chance(0.5)) } else { (0, false) };
     let spec_pdf = move |t: &mut Tape, _s: usize| {
         let l = spec_len;
+        let mut lsp_gain = 1.0f64;
         let mut mean = vec![0f32; l * nw];
         let mut var = vec![0f32; l * nw];
         if lsp {
             // gain then increasing frequencies near the uniform grid
             let m = l - 1;
-            let g = t.uniform(0.5, 2.0);
+            // gain: mostly around 1, sometimes a quiet voice (the gain's own variance scales with it
+            // below, so that generated trajectories keep a positive linear gain)
+            let g = if t.chance(0.85) { t.uniform(0.5, 2.0) } else { t.log_uniform(0.005, 0.1) };
+            lsp_gain = g;
             mean[0] = if use_log_gain { g.ln() as f32 } else { g as f32 };
             for i in 1..=m {
                 let base = std::f64::consts::PI * i as f64 / (m as f64 + 1.0);
@@ -666,6 +670,9 @@ pub fn gen_voice(t: &mut Tape, o: GenOpts) -> VoiceSpec {
             for i in 0..l {
                 var[w * l + i] = if w == 0 { t.log_uniform(0.01, 0.5) as f32 } else { t.log_uniform(0.005, 0.2) as f32 };
             }
+        }
+        if lsp && !use_log_gain && lsp_gain < 0.5 {
+            var[0] = ((0.05 * lsp_gain) * (0.05 * lsp_gain)) as f32;
         }
         mean.extend(var);
         mean
